@@ -26,7 +26,9 @@ var iqTypes = []stanza.IQType{stanza.GetIQ, stanza.SetIQ, stanza.ResultIQ, stanz
 var msgTypes = []stanza.MessageType{stanza.NormalMessage, stanza.ChatMessage, stanza.ErrorMessage, stanza.GroupChatMessage, stanza.HeadlineMessage}
 var presTypes = []stanza.PresenceType{stanza.AvailablePresence, stanza.ErrorPresence, stanza.ProbePresence, stanza.SubscribePresence, stanza.SubscribedPresence, stanza.UnavailablePresence, stanza.UnsubscribePresence, stanza.UnsubscribedPresence}
 
-func viol(sig, f string, a ...any) *nd.Violation { return &nd.Violation{Sig: sig, Msg: fmt.Sprintf(f, a...)} }
+func viol(sig, f string, a ...any) *nd.Violation {
+	return &nd.Violation{Sig: sig, Msg: fmt.Sprintf(f, a...)}
+}
 
 // generic view of a stanza header
 type hdr struct {
@@ -223,6 +225,7 @@ func checkStanza(s stz) *nd.Violation {
 var errTypes = []stanza.ErrorType{"", stanza.Cancel, stanza.Auth, stanza.Continue, stanza.Modify, stanza.Wait}
 var conds = []stanza.Condition{"", stanza.BadRequest, stanza.ItemNotFound, stanza.UndefinedCondition, stanza.ServiceUnavailable}
 var textLangs = []string{"", "en", "de"}
+var maxTexts = 2
 
 func normErr(e stanza.Error) string {
 	cond := e.Condition
@@ -241,7 +244,7 @@ func normErr(e stanza.Error) string {
 
 func stanzaErrBody(c *nd.Ctx) nd.Result {
 	e := stanza.Error{Type: errTypes[c.Choose(len(errTypes), "type")], Condition: conds[c.Choose(len(conds), "cond")], By: jidPool[c.Choose(len(jidPool), "by")]}
-	n := c.Choose(3, "ntexts")
+	n := c.Choose(maxTexts+1, "ntexts")
 	if n > 0 {
 		e.Text = map[string]string{}
 		used := map[int]bool{}
@@ -323,7 +326,7 @@ func normStream(e stream.Error) string {
 
 func streamErrBody(c *nd.Ctx) nd.Result {
 	e := stream.Error{Err: streamConds[c.Choose(len(streamConds), "cond")]}
-	n := c.Choose(3, "ntexts")
+	n := c.Choose(maxTexts+1, "ntexts")
 	for i := 0; i < n; i++ {
 		e.Text = append(e.Text, struct{ Lang, Value string }{textLangs[c.Choose(len(textLangs), "text-lang")], strPool[c.Choose(len(strPool), "text")]})
 	}
@@ -409,6 +412,16 @@ func init() {
 			"stanza.Error: empty condition encodes as undefined-condition and empty texts are dropped (documented); stream.Error.Content is only exercised for see-other-host (documented)"},
 		Parts: func(tier string) []drv.Part {
 			b := 100 * time.Second
+			if tier == "thorough" {
+				// every defined condition constant, more
+				// awkward strings and addresses
+				b = 20 * time.Minute
+				conds = append([]stanza.Condition{""}, stanza.BadRequest, stanza.Conflict, stanza.FeatureNotImplemented, stanza.Forbidden, stanza.Gone, stanza.InternalServerError, stanza.ItemNotFound, stanza.JIDMalformed, stanza.NotAcceptable, stanza.NotAllowed, stanza.NotAuthorized, stanza.PolicyViolation, stanza.RecipientUnavailable, stanza.Redirect, stanza.RegistrationRequired, stanza.RemoteServerNotFound, stanza.RemoteServerTimeout, stanza.ResourceConstraint, stanza.ServiceUnavailable, stanza.SubscriptionRequired, stanza.UndefinedCondition, stanza.UnexpectedRequest)
+				streamConds = []string{"bad-format", "bad-namespace-prefix", "conflict", "connection-timeout", "host-gone", "host-unknown", "improper-addressing", "internal-server-error", "invalid-from", "invalid-namespace", "invalid-xml", "not-authorized", "not-well-formed", "policy-violation", "remote-connection-failed", "reset", "resource-constraint", "restricted-xml", "see-other-host", "system-shutdown", "undefined-condition", "unsupported-encoding", "unsupported-feature", "unsupported-stanza-type", "unsupported-version"}
+				strPool = append(strPool, "]]>", "&amp;", "\t", "\U0001F600", strings.Repeat("x<", 300))
+				langPool = append(langPool, "de-CH")
+				jidPool = append(jidPool, jid.MustParse("a@example.net"), jid.MustParse("example.net/r&<"))
+			}
 			return []drv.Part{
 				{Name: "stanzas", Body: stanzaBody, CutDepth: 3, Budget: b},
 				{Name: "stanza-errors", Body: stanzaErrBody, CutDepth: 3, Budget: b},
